@@ -24,6 +24,10 @@ CHECKS = {
    text="PARTIAL. Proved for every adapter built on the common parse loop and ANY line classifier: iterations rendered as criterion lines + total line, with noise lines anywhere, are returned exactly, in order, one data point per iteration. Which concrete line shapes the regular expressions accept is decided by correspondence, not by theorem: the expressions are regenerated from the source with CPython's own re parser, the Gallina matcher is compared with re on generated lines, and rendered outputs of every documented format/numeral shape/unit/prefix/CRLF are parsed by the real adapters and compared with what was rendered (exact Fractions) and with the model.",
    note="Not proved: per-format line theorems (render_line matches with the right groups) - stated in DESIGN.md as not finished. Trusted: Gallina regex engine as a description of re (differentially tested each run), tr_regex.py, CPython float().",
    technique="Rocq proof (loop level, induction over rendered items) + translated regular expressions + render-then-parse correspondence"),
+ "C06": dict(
+   text="Theorems over a line-level model of the data file (loader _process_lines/_parse_data_line, writer of one recording session, column codec): whatever a session appends to a loadable file is read back as exactly the data points it recorded - each once, whole, in order, for the right run - and nothing else; the appended text starts with the metadata block, has the column header iff the file was empty and nowhere else; earlier lines are a prefix; a measurement line's columns are read back exactly whatever characters they contain. Tied to the real persistence by in-process sessions on 1-3 experiments x 1-3 data files x histories: the bytes appended, classified independently, must equal Model.session_lines, and the real loader must agree with Model.load on every file.",
+   note="PARTIAL: run and benchmark identities are abstract keys at the line level (their JSON is C07); profile data files are not exercised (no perf in the sandbox); password removal has an oracle only (fake git on PATH), urllib.parse is outside the model. Trusted: the harness's independent classification of file bytes into abstract lines.",
+   technique="Rocq proof (writer/loader simulation invariant by induction over data points) + byte-level correspondence on real data files"),
  "C12": dict(
    text="Theorems for every output text, every Unicode classification and both include-faulty settings: each of the six built-in adapters (seven parse variants) returns a reject or a non-empty list of data points with exactly one 'total', last, and no other exception; a failure marker reached before an accepting exit rejects as invalid unless faulty results were requested; generic version for any adapter written with the common loop. The regular expressions are regenerated from the source on every run; the hand-written loops are tied to the real parse_data by grammar-guided near-misses, splices and random strings, and the regex engine is compared with CPython's re.",
    note="Trusted: Gallina regex engine + tr_regex.py (both validated against re each run), CPython float()/int() on extracted tokens, palette of non-ASCII characters for the executable instance (theorems hold for arbitrary classes).",
